@@ -6,7 +6,7 @@ arguments of Error::new_simple(..) and the variants of `enum Reason`.
 kinds: unwrap  expect  panic  unreachable  todo  unimplemented  assert  debug_assert  index  index_lit
        arith (only inside the modelled functions: + - * on integers)
 
-Excluded: #[cfg(test)] items and the files they declare, */test.rs, */tests/*, the CLI (prqlc/src/cli,
+Excluded: #[cfg(test)] and #[cfg(prqlc_verif)] (verification hook) items and the files they declare, */test.rs, */tests/*, the CLI (prqlc/src/cli,
 main.rs: not a library entry point; the harness builds prqlc without the `cli` feature).
 
 `python3 -m vplib.translate.gen_sites --baseline` rewrites coq/Model/SitesBaseline.v from the current
@@ -53,26 +53,57 @@ def codes(s):
 
 
 def strip_cfg_test(src, m):
-    """blank out every item that follows #[cfg(test)] (mod {...}, fn {...}, `mod x;`, use ...;).
+    """blank out every item or statement that follows #[cfg(test)] or #[cfg(prqlc_verif)] (verification hooks are
+    add-only code behind that cfg and are not part of the product): mod {...}, fn {...}, a bare block {...},
+    `mod x;`, `use ...;`, `let ... ;`.
     Returns (src', masked', [names of modules declared `#[cfg(test)] mod x;`])"""
     out_s, out_m = list(src), list(m)
     declared = []
-    for mm in re.finditer(r"#\[cfg\(test\)\]", m):
+    n = len(m)
+    for mm in re.finditer(r"#\[cfg\((test|prqlc_verif)\)\]", m):
         i = mm.end()
-        # the item ends at the first top-level ';' or at the brace closing the first '{'
-        j = i
-        n = len(m)
-        while j < n and m[j] not in ";{":
-            j += 1
-        if j >= n:
-            raise ExtractError("#[cfg(test)] without an item")
-        if m[j] == ";":
-            end = j + 1
-            d = re.search(r"\bmod\s+([A-Za-z_0-9]+)\s*$", m[i:j])
-            if d:
-                declared.append(d.group(1))
+        while i < n and m[i].isspace():
+            i += 1
+        # further attributes on the same item
+        while m.startswith("#[", i):
+            i = match_brace(m, i + 1) + 1
+            while i < n and m[i].isspace():
+                i += 1
+        if i >= n:
+            raise ExtractError("#[cfg(..)] without an item")
+        if m[i] == "{":
+            end = match_brace(m, i) + 1
+        elif re.match(r"(pub(\([^)]*\))?\s+)?(unsafe\s+|async\s+|const\s+)*(mod|fn|impl|struct|enum|trait)\b", m[i:i + 60]):
+            j = i
+            while j < n and m[j] not in ";{":
+                j += 1
+            if j >= n:
+                raise ExtractError("#[cfg(..)] item without body")
+            if m[j] == ";":
+                end = j + 1
+                d = re.search(r"\bmod\s+([A-Za-z_0-9]+)\s*$", m[i:j])
+                if d and mm.group(1) == "test":
+                    declared.append(d.group(1))
+            else:
+                end = match_brace(m, j) + 1
         else:
-            end = match_brace(m, j) + 1
+            # a statement / use declaration: up to the first ';' outside brackets
+            depth = 0
+            j = i
+            while j < n:
+                ch = m[j]
+                if ch in "([{":
+                    depth += 1
+                elif ch in ")]}":
+                    depth -= 1
+                    if depth < 0:
+                        raise ExtractError("#[cfg(..)] statement runs past its block")
+                elif ch == ";" and depth == 0:
+                    break
+                j += 1
+            if j >= n:
+                raise ExtractError("#[cfg(..)] statement without ';'")
+            end = j + 1
         for k in range(mm.start(), end):
             if out_s[k] != "\n":
                 out_s[k] = " "
